@@ -70,8 +70,10 @@ TTI, TTR, TTB, TTIn, TTRn = _seq("torch", "int"), _seq("torch", "real"), _seq("t
 
 
 class Prog:
-    def __init__(self, fn, specs, pre=None, loops=None, bad_loops=None, unsupported=False, n_inputs=None, max_paths=600, len_factor=2):
+    def __init__(self, fn, specs, pre=None, loops=None, bad_loops=None, unsupported=False, n_inputs=None, max_paths=600, len_factor=2,
+                 known_deviation=None):
         self.fn, self.specs, self.pre, self.loops, self.bad_loops = fn, list(specs), pre, loops, bad_loops
+        self.known_deviation = known_deviation  # (CPython exception class name, why the engine deliberately does not raise it)
         self.unsupported, self.n_inputs, self.max_paths, self.len_factor = unsupported, n_inputs, max_paths, len_factor
         self.name = fn.__name__
 
@@ -111,17 +113,21 @@ def int_truediv(a, b):
     return a / b
 
 
-@prog(R(-4, 4), R(-2, 2, 2))
+_FLOAT_DIV0 = ("ZeroDivisionError", "float division by zero is not raised for real-sorted scalars by default (they also stand for numpy/torch "
+               "scalars, which do not raise); opt-in check: PYVC_REAL_DIV_ZERO=1 / values.REAL_DIV_ZERO_RAISES")
+
+
+@prog(R(-4, 4), R(-2, 2, 2), known_deviation=_FLOAT_DIV0)
 def real_truediv(x, y):
     return x / y
 
 
-@prog(R(-4, 4), R(-2, 2, 2))
+@prog(R(-4, 4), R(-2, 2, 2), known_deviation=_FLOAT_DIV0)
 def real_floordiv(x, y):
     return x // y
 
 
-@prog(R(-4, 4), R(-2, 2, 2))
+@prog(R(-4, 4), R(-2, 2, 2), known_deviation=_FLOAT_DIV0)
 def real_mod(x, y):
     return x % y
 
@@ -141,7 +147,7 @@ def neg_pow(a, x):
     return a ** -1, x ** -2, 2 ** -a if a < 3 else 0
 
 
-@prog(I(-2, 2), R(-1, 1, 2))
+@prog(I(-2, 2), R(-1, 1, 2), known_deviation=_FLOAT_DIV0)
 def neg_pow_zero_base(a, x):
     if a > 1:
         return x ** -1
@@ -1011,7 +1017,7 @@ def t_stack_2d(a, b):
     return torch.stack([a, b], dim=0), torch.stack([a, b], dim=1), torch.stack([a, b], dim=2), torch.stack([a, b], dim=-2)
 
 
-@prog(TTR(4), R(-2, 0), R(0, 2))
+@prog(TTR(4), R(-2, 2), R(-2, 2))
 def t_clamp(x, lo, hi):
     return torch.clamp(x, lo, hi), torch.clamp(x, min=0.0), torch.clamp(x, max=hi), torch.clamp(x, min=lo, max=hi) - x
 
@@ -1156,3 +1162,274 @@ def loop_range_step(n, step):
     for i in range(0, n, 2):
         acc += step
     return acc
+
+
+# =================================================================================================
+# 7. second batch: equality / membership of sequences, objects with protocol methods, error paths of array
+#    operations, more slicing, loops without carried state, zip / enumerate trip counts
+# =================================================================================================
+
+
+@prog(SLI(3), I(-3, 3))
+def symlist_contains(xs, a):
+    return a in xs, a not in xs, isinstance(xs, list)
+
+
+@prog(SLI(3), I(-3, 3), unsupported=True)
+def symlist_count_method(xs, a):
+    return xs.count(a)
+
+
+@prog(SLI(2), SLI(2))
+def symlist_equality(xs, ys):
+    return xs == ys, xs != ys, xs == xs
+
+
+@prog(LI(2), LI(2))
+def pylist_equality(xs, ys):
+    return xs == ys, xs != ys, xs == [xs[0], xs[1]], (xs[0], 1) == (ys[0], 1), xs < ys if False else 0
+
+
+@prog(SLI(3), I())
+def symlist_builtins(xs, s):
+    return sum(xs, s), min(xs), max(xs), len(xs), list(xs), tuple(xs), [x + 1 for x in xs], sum(xs[1:])
+
+
+@prog(LI(2), LI(2), I(-3, 3), I(-3, 3))
+def nested_list_symbolic_index(xs, ys, i, j):
+    grid = [xs, ys]
+    return grid[i][j]
+
+
+@prog(I(), I(), I(), unsupported=True)
+def list_index_count_methods(a, b, c):
+    xs = [a, b, c]
+    return xs.count(a), xs.index(c), len(xs)
+
+
+@prog(I(-3, 3), I(-3, 3))
+def while_else_symbolic(a, b):
+    n = 0
+    while a < b:
+        a += 2
+        n += 1
+        if n == 2:
+            break
+    else:
+        n = -n
+    return n, a
+
+
+@prog(LI(3), I(-4, 4))
+def del_and_slices_pylist(xs, i):
+    ys = xs[::-1]
+    zs = xs[1:]
+    del zs[0]
+    return ys, zs, xs[i:], xs[:i][::1], xs[-2:]
+
+
+class _Vec:
+    scale = 2
+
+    def __init__(self, x, y):
+        self.x = x
+        self._y = y
+
+    @property
+    def y(self):
+        return self._y
+
+    @y.setter
+    def y(self, v):
+        self._y = v * self.scale
+
+    def __getitem__(self, i):
+        if i == 0:
+            return self.x
+        if i == 1:
+            return self._y
+        raise IndexError(i)
+
+    def __len__(self):
+        return 2
+
+    def __contains__(self, v):
+        return v == self.x or v == self._y
+
+    def __call__(self, k):
+        return _Vec(self.x * k, self._y * k)
+
+    @staticmethod
+    def dot(a, b):
+        return a.x * b.x + a.y * b.y
+
+    @classmethod
+    def unit(cls, s):
+        return cls(s, 0)
+
+    def norm1(self):
+        return abs(self.x) + abs(self._y)
+
+
+@prog(I(), I(), I(-1, 2))
+def object_protocols(a, b, i):
+    v = _Vec(a, b)
+    v.y = b + 1
+    w = v(3)
+    u = _Vec.unit(a)
+    return v[i], len(v), a in v, 100 in v, w.x, w.y, _Vec.dot(v, u), v.norm1(), hasattr(v, "x"), hasattr(v, "zz"), getattr(v, "zz", 5)
+
+
+@prog(I(), I())
+def object_attribute_errors(a, b):
+    v = _Vec(a, b)
+    if a > b:
+        return v.missing
+    setattr(v, "extra", a + b)
+    return v.extra, v.scale
+
+
+@prog(SLIn(3), I(-4, 4))
+def try_except_symarr_index(xs, i):
+    try:
+        return xs[i]
+    except IndexError:
+        return -100
+
+
+@prog(NPI(2, 3), I(0, 3))
+def np_reshape_bad(a, k):
+    if k == 0:
+        return a.reshape(4)
+    if k == 1:
+        return a.reshape(2, 2)
+    if k == 2:
+        return a.reshape(-1, 4)
+    return a.reshape(6)
+
+
+@prog(TTI(2, 3), I(0, 2))
+def t_reshape_bad(a, k):
+    if k == 0:
+        return a.reshape(5)
+    if k == 1:
+        return a.view(4, 2)
+    return a.view(3, 2)
+
+
+@prog(NPI(3), NPI(2), unsupported=True)
+def np_broadcast_mismatch(a, b):
+    return a + b
+
+
+@prog(NPI(2, 3), I(-3, 3))
+def np_too_many_indices(a, i):
+    if i > 0:
+        return a[0, 1, i]
+    return a[i, 0]
+
+
+@prog(NPI(6), I(-8, 8), I(-8, 8))
+def np_slice_symbolic_step(a, i, j):
+    return a[i:j:2], a[i::3], a[:j:2]
+
+
+@prog(NPI(4), unsupported=True)
+def np_negative_step(a):
+    return a[::-1]
+
+
+@prog(NPIn(4))
+def np_mean_symbolic_len(a):
+    return a.mean()
+
+
+@prog(NPRn(3))
+def np_symbolic_len_elementwise(a):
+    b = a * 2 - 1
+    c = abs(b)
+    return b, c[1:], len(c), (b > 0), c[:-1]
+
+
+@prog(NPI(2, 3))
+def np_len_shape_2d(a):
+    return len(a), a.shape[1], a.T.shape, a[0].shape, a.sum(axis=0).shape, a[:, :2].T, a.T[1], a.T.reshape(-1)
+
+
+@prog(NPI(3), I(-4, 4))
+def np_scalar_conversions(a, i):
+    return int(a[1]), float(a[0]) / 2, bool(a[2]), a[i] * 2 if -3 <= i < 3 else 0, a[0].item() if False else a[0] + 0
+
+
+@prog(NPR(2, 3))
+def np_long_trunc(a):
+    return a.astype(np.int64), (a * 2).astype(int), a.astype(float), a.astype(np.int32).sum()
+
+
+@prog(NPI(3))
+def np_astype_int_to_float(a):
+    return a.astype(float) / 2, a.astype(np.float64) * 0.5
+
+
+@prog(TTR(3), TTR(3))
+def t_compare_logic(a, b):
+    m = (a > b) | (a < -1)
+    return m, ~m, m & (b > 0), a == b, torch.where(m, 1.0, 0.0), (a >= b).sum() if False else m
+
+
+@prog(TTI(3), I(-5, 5))
+def t_index_errors(x, i):
+    return x[i]
+
+
+@prog(TTI(2, 2), TTI(2, 2))
+def t_cat_stack_compose(a, b):
+    c = torch.cat([a, b], dim=1)
+    s = torch.stack([c[0], c[1]], dim=0)
+    return s, torch.roll(c, 1, 1)[:, 0], c.sum(dim=0), torch.cat([a.flatten(), b.flatten()]).reshape(2, 4)
+
+
+@prog(TTR(2, 3))
+def t_keepdim_broadcast_back(x):
+    m = x.mean(dim=1, keepdim=True)
+    return x - m, (x - m).sum(dim=1), x / 2 - x.sum(dim=0, keepdim=True)
+
+
+@prog(R(0, 4), R(-2, 2))
+def math_uninterpreted(x, y):
+    return math.sqrt(x), math.cos(y), math.sin(y) + 1, math.exp(y), y * math.pi
+
+
+@prog(SLIn(3))
+def loop_no_state_raise(xs):
+    for x in xs:
+        if x < 0:
+            raise ValueError("negative")
+    return len(xs)
+
+
+@prog(SLIn(3), SLIn(4), loops={0: _LS(inv=lambda s: [("c=k", s.c == s.k)])},
+      bad_loops={"c=k+1": {0: _LS(inv=lambda s: [("c", s.c == s.k + 1)])}})
+def loop_zip_trip_count(xs, ys):
+    c = 0
+    for x, y in zip(xs, ys):
+        c += 1
+    return c
+
+
+@prog(SLIn(4), loops={0: _LS(inv=lambda s: [("last", s.last == s.k - 1)])})
+def loop_enumerate_symlist(xs):
+    last = -1
+    for i, x in enumerate(xs):
+        last = i
+    return last
+
+
+@prog(I(-2, 6), I(-2, 6), loops={0: _LS(inv=lambda s: [("c", s.c == s.k), ("last", (s.k == 0) | (s.last == s.pre.a - s.k + 1))])})
+def loop_range_negative_step(a, b):
+    c = 0
+    last = 0
+    for i in range(a, b, -1):
+        c += 1
+        last = i
+    return c, last if c else 0
